@@ -322,6 +322,9 @@ func aberrantAppendField(md *filedesc.Message, goType reflect.Type, tag, tagKey,
 	fd.L0.ParentFile = md.L0.ParentFile
 	fd.L0.Parent = md
 	fd.L0.Index = n
+	if fd.L1.Cardinality == protoreflect.Required {
+		md.L2.RequiredNumbers.List = append(md.L2.RequiredNumbers.List, fd.L1.Number)
+	}
 
 	if fd.L1.EditionFeatures.IsPacked {
 		fd.L1.Options = func() protoreflect.ProtoMessage {
